@@ -728,3 +728,55 @@ Proof.
   intros W T Hs N. cbn [as_revision_id]. rewrite Hs. cbn [bind]. rewrite T.
   rewrite (proj2 (find_lefthand_merger_none _ m t W) N). reflexivity.
 Qed.
+
+(* ---- an executable form of ms_good, and examples ------------------------------------------ *)
+
+Fixpoint revno_mem (d : revno) (l : list revno) : bool :=
+  match l with [] => false | x :: l' => revno_eqb d x || revno_mem d l' end.
+Fixpoint revnos_distinct (l : list revno) : bool :=
+  match l with [] => true | x :: l' => negb (revno_mem x l') && revnos_distinct l' end.
+
+Lemma revno_mem_In d l : revno_mem d l = true <-> In d l.
+Proof.
+  induction l as [|x l IH]; cbn; [split; [discriminate | contradiction]|].
+  rewrite orb_true_iff, revno_eqb_spec, IH. split; intros [H|H]; auto.
+Qed.
+
+Lemma revnos_distinct_NoDup l : revnos_distinct l = true -> NoDup l.
+Proof.
+  induction l as [|x l IH]; cbn; [constructor|]. intros H. apply andb_true_iff in H as [H1 H2].
+  constructor; [|apply IH; exact H2]. intros X. apply revno_mem_In in X. rewrite X in H1. discriminate.
+Qed.
+
+Definition ms_goodb (b : branch) : bool :=
+  let l := merge_sorted (br_g b) (br_tip b) in
+  revnos_distinct (ms_revnos l) &&
+  forallb (fun e => Bool.eqb (memb (e_id e) (lh b)) (length (e_revno e) =? 1)) l.
+
+Lemma ms_goodb_spec b : ms_goodb b = true -> ms_good b.
+Proof.
+  unfold ms_goodb, ms_good. intros H. apply andb_true_iff in H as [H1 H2].
+  split; [apply revnos_distinct_NoDup; exact H1|].
+  intros e He. rewrite forallb_forall in H2. specialize (H2 e He). apply Bool.eqb_prop in H2.
+  rewrite <- memb_In, H2, Nat.eqb_eq. reflexivity.
+Qed.
+
+(* r3 = 1.1.1 and r4 = 1.2.1 are branches off revision 1, merged by r5 = 4 and r6 = 5 *)
+Definition ex_branch : branch := mkBr [[]; [0]; [1]; [0]; [0]; [2; 3]; [5; 4]] (Some 6) [(0, 3)].
+(* a merge of a merge: 3, 4 a side branch; 5 a side branch of the side branch *)
+Definition ex_nested : branch := mkBr [[]; [0]; [1]; [0]; [3]; [3]; [4; 5]; [2; 6]; [7]] (Some 8) [].
+
+Example ex_wf : wf_dag (br_g ex_branch) = true /\ wf_dag (br_g ex_nested) = true.
+Proof. split; reflexivity. Qed.
+Example ex_good : ms_good ex_branch /\ ms_good ex_nested.
+Proof. split; apply ms_goodb_spec; vm_compute; reflexivity. Qed.
+Example ex_present : lh_present ex_branch /\ lh_present ex_nested.
+Proof. split; reflexivity. Qed.
+Example ex_dotted :
+  revision_id_to_dotted_revno ex_nested (Some 5) = Ok [1; 2; 1] /\
+  dotted_revno_to_revision_id ex_nested [1; 2; 1] = Ok (Some 5) /\
+  as_revision_id ex_branch (SMainline (SDotted [1; 1; 1])) = Ok (Some 5) /\
+  as_revision_id ex_branch (SBefore (SRevno (-1))) = Ok (Some 5) /\
+  as_revision_id ex_branch (SAncestor (Some 3)) = Ok (Some 3) /\
+  in_history ex_branch (STag 0) = Ok (None, Some 3).
+Proof. vm_compute. repeat split. Qed.
